@@ -2,13 +2,14 @@
 
     // C02 — safety provenance through operators, filters, loops, macros, captures, includes and inheritance is a
     // whole-program invariant over ~20 filters taking &State: no contract within reach. BOUNDED native stand-in.
-//# ob name=autoescape_programs_native role=native_bounded fn=filters::{escape,safe,replace,join,format,indent,trim,...}+vm::eval_impl+output::end_capture+defaults::default_auto_escape_callback kind=bounded bound="26 value-producing expressions over a context string with every HTML metacharacter (operators, 20 string/list filters, subscripts) x 13 wrappers (print, loop, macro, call block, set-block, filter block, with, include, block+super, nested capture, join with captured separator) x 2 data strings; template names {x.html, dir/x.v2.html, feed.atom.xml, x.html.j2, x.htm}; nested autoescape blocks" stmt="in *.html/*.xml templates that use no safe-marking construct, the characters < > \" ' from context data never appear raw in the output, and output already escaped when a macro / call block / set-block / filter block / include / block captured it is not escaped a second time"
+//# ob name=autoescape_programs_native role=native_bounded fn=filters::{escape,safe,replace,join,format,indent,trim,...}+vm::eval_impl+output::end_capture+defaults::default_auto_escape_callback kind=bounded bound="33 value-producing expressions over a context string with every HTML metacharacter (operators, 20 string/list filters, subscripts) x 13 wrappers (print, loop, macro, call block, set-block, filter block, with, include, block+super, nested capture, join with captured separator) x 2 data strings; template names {x.html, dir/x.v2.html, feed.atom.xml, x.html.j2, x.htm}; nested autoescape blocks" stmt="in *.html/*.xml templates that use no safe-marking construct, the characters < > \" ' from context data never appear raw in the output, and output already escaped when a macro / call block / set-block / filter block / include / block captured it is not escaped a second time"
     fn autoescape_programs_native() {
         use crate::Environment;
         let exprs: &[&str] = &[
             "v", "v ~ v", "v + v", "v * 2", "v|upper", "v|lower", "v|title", "v|capitalize", "v|trim", "v|replace('q', 'z')",
             "v|replace('x', v)", "[v, v]|join(', ')", "[v, [v]]|join(v)", "'%s|%s'|format(v, v)", "v|indent(2)", "v|default('d')",
             "v|first", "v|last", "v[1:]", "v[::-1]", "v|reverse", "v|list|join", "v|string", "[v]|first", "{'k': v}.k", "v|truncate_if_any|default(v)",
+            "(v|e) ~ [v]", "[v] ~ (v|e)", "(v|e) ~ {'k': v}", "(v|e) ~ v", "(v|e) + v", "(v|e) * 2", "(v|e)|upper ~ [v, [v]]",
         ];
         let wrappers: &[&str] = &[
             "{{ E }}",
@@ -44,7 +45,9 @@
                     assert!(!stripped.contains('<') && !stripped.contains('>') && !stripped.contains('"') && !stripped.contains('\''),
                             "{name}: raw metacharacter from data in output of {src:?}: {out:?}");
                     // data contains no '&': an '&amp;' in the output means something was escaped twice
-                    assert!(!out.contains("&amp;"), "{name}: double escaping in {src:?}: {out:?}");
+                    // (concatenating the result of `|e` with `~` / `+` / `*` yields a plain string again, which is escaped
+                    // once more when printed: the statement's "not escaped a second time" clause is about captures)
+                    if !e.contains("(v|e)") { assert!(!out.contains("&amp;"), "{name}: double escaping in {src:?}: {out:?}"); }
                 }}
                 // nested autoescape blocks restore the enclosing mode
                 env.add_template_owned(name.to_string(), "{% autoescape true %}{% autoescape false %}{% endautoescape %}{{ v }}{% endautoescape %}{{ v }}".to_string()).unwrap();
